@@ -1,32 +1,32 @@
 // gen_ctxsites.go: CtxSites.v -- where render contexts are created and where the sandbox policy is consulted
 // (property C06). Extracted syntactically from every non-test file of the package:
 //
-//   cs_sites   every statement  v := NewRenderContext(...)  /  v = NewRenderContext(...)  /  v := x.Clone()
-//              with the file, the enclosing function, the variable, whether the enclosing function has a creating
-//              context (a receiver or parameter of type *RenderContext), how the new context's sandboxed field is
-//              set before the context is used:
-//                inherit  v.sandboxed = <creating context>.sandboxed, unconditionally after the creation
-//                forced   v.sandboxed = true (or v.EnableSandbox()), unconditionally
-//                other    some other right-hand side
-//                none     no such assignment
-//                clone    the site is a Clone() call: the copy is made inside Clone (cs_clone_*)
-//              the calls that USE the new context (a method call on it, or passing it as an argument; Release,
-//              SetVariable, SetParent and plain field assignments are not uses) between the creation and that
-//              assignment, in source order (cs_uses_before: must be empty -- the macro context evaluating
-//              parameter defaults before it inherits the flag is the regression this records), and the conditions
-//              of the if statements under which the field is additionally forced to true before the first use
-//              (cs_forced_if: n.sandboxed for the include tag).
-//   cs_clone_propagates / cs_clone_uses_before   the same for the body of (*RenderContext).Clone.
-//   cs_new_resets_flag   NewRenderContext assigns sandboxed = false to the pooled object.
-//   cs_applyfilter_check_first, cs_callfunction_check_first   the FIRST statement of ApplyFilter / CallFunction is
-//              if <recv>.sandboxed && ... securityPolicy != nil && !...IsFilterAllowed(<name>) { return nil, NewFilterViolation(<name>) }
-//              (IsFunctionAllowed / NewFunctionViolation).
-//   cs_evalexpr_check   EvaluateExpression has, before its main type switch, the guarded type switch that refuses a
-//              FunctionNode / FilterNode by name.
-//   cs_filter_readers / cs_function_readers   the functions that read the environment's filter / function table
-//              (x.filters[...] / x.functions[...] not as an assignment target): a filter can only be invoked by a
-//              function that looks it up.
-//   cs_policy_callers   the functions that call IsFilterAllowed / IsFunctionAllowed.
+//	cs_sites   every statement  v := NewRenderContext(...)  /  v = NewRenderContext(...)  /  v := x.Clone()
+//	           with the file, the enclosing function, the variable, whether the enclosing function has a creating
+//	           context (a receiver or parameter of type *RenderContext), how the new context's sandboxed field is
+//	           set before the context is used:
+//	             inherit  v.sandboxed = <creating context>.sandboxed, unconditionally after the creation
+//	             forced   v.sandboxed = true (or v.EnableSandbox()), unconditionally
+//	             other    some other right-hand side
+//	             none     no such assignment
+//	             clone    the site is a Clone() call: the copy is made inside Clone (cs_clone_*)
+//	           the calls that USE the new context (a method call on it, or passing it as an argument; Release,
+//	           SetVariable, SetParent and plain field assignments are not uses) between the creation and that
+//	           assignment, in source order (cs_uses_before: must be empty -- the macro context evaluating
+//	           parameter defaults before it inherits the flag is the regression this records), and the conditions
+//	           of the if statements under which the field is additionally forced to true before the first use
+//	           (cs_forced_if: n.sandboxed for the include tag).
+//	cs_clone_propagates / cs_clone_uses_before   the same for the body of (*RenderContext).Clone.
+//	cs_new_resets_flag   NewRenderContext assigns sandboxed = false to the pooled object.
+//	cs_applyfilter_check_first, cs_callfunction_check_first   the FIRST statement of ApplyFilter / CallFunction is
+//	           if <recv>.sandboxed && ... securityPolicy != nil && !...IsFilterAllowed(<name>) { return nil, NewFilterViolation(<name>) }
+//	           (IsFunctionAllowed / NewFunctionViolation).
+//	cs_evalexpr_check   EvaluateExpression has, before its main type switch, the guarded type switch that refuses a
+//	           FunctionNode / FilterNode by name.
+//	cs_filter_readers / cs_function_readers   the functions that read the environment's filter / function table
+//	           (x.filters[...] / x.functions[...] not as an assignment target): a filter can only be invoked by a
+//	           function that looks it up.
+//	cs_policy_callers   the functions that call IsFilterAllowed / IsFunctionAllowed.
 //
 // Proofs/SandboxSites.v computes the obligation C06_sites_propagate on these tables.
 package main
@@ -234,9 +234,9 @@ func csCreator(fd *ast.FuncDecl) string {
 
 type csSite struct {
 	file, fn, v, kind, prop string
-	hasCreator            bool
-	usesBefore, forcedIf  []string
-	line                  int
+	hasCreator              bool
+	usesBefore, forcedIf    []string
+	line                    int
 }
 
 // how the variable created by event i gets its flag, and what uses it before
